@@ -151,7 +151,7 @@ def signature(func, variadic=True, markup=True, safe=False):
         defaults = dict((k,v) for (k,v) in defaults.items() if k not in _fixed)
         defaults.update(dict((X+k,v) for (k,v) in _fixed.items()))
 
-    if inspect.ismethod(func) and func.__self__:
+    if inspect.ismethod(func) and func.__self__ is not None:
         # then it's a bound method
         explicit = explicit[1:] #XXX: correct to remove 'self' ?
 
